@@ -135,6 +135,12 @@ def reader(file_info, **kwargs):
         return int(fh.read())
 
 
+def writer(data, file_info, **kwargs):
+    """writer of the output fileset (map(..., output=...)): one text file per written value"""
+    with open(file_info.path, "w") as fh:
+        fh.write(str(data))
+
+
 # ---- canonical rendering of what the mapped function received (mirrors Driver/C10.lean)
 def render_file(x):
     if isinstance(x, (list, tuple)):
